@@ -220,7 +220,7 @@ func (c *Ctx) strLit(s string) *Term {
 			c.addFact(Neq(t, ot))
 		}
 	}
-	c.addFact(Eq(App("str.len", SInt, t), Num(int64(len(s)))))
+	c.addFact(Eq(App("gstr.len", SInt, t), Num(int64(len(s)))))
 	c.strLits[s] = t
 	return t
 }
@@ -889,8 +889,8 @@ func (fr *Frame) step(st *State, ins ssa.Instruction, b *ssa.BasicBlock, edgeSt 
 			elemRangeFact(el, x.Type())
 			fr.Regs[x] = &Val{K: kindOf(x.Type()), T: x.Type(), X: el}
 		case KStr:
-			fr.checkBounds(st, i.X, App("str.len", SInt, v.X), "index", x.Pos())
-			r := App("str.at", SInt, v.X, i.X)
+			fr.checkBounds(st, i.X, App("gstr.len", SInt, v.X), "index", x.Pos())
+			r := App("gstr.at", SInt, v.X, i.X)
 			c.addFact(And(Le(Num(0), r), Le(r, Num(255))))
 			fr.Regs[x] = &Val{K: KInt, T: x.Type(), X: r}
 		default:
@@ -1192,8 +1192,8 @@ func (fr *Frame) binop(st *State, op token.Token, a, b *Val, rt types.Type, pos 
 	if a.K == KStr {
 		switch op {
 		case token.ADD:
-			r := App("str.cat", SStr, a.X, b.X)
-			c.addFact(Eq(App("str.len", SInt, r), Add(App("str.len", SInt, a.X), App("str.len", SInt, b.X))))
+			r := App("gstr.cat", SStr, a.X, b.X)
+			c.addFact(Eq(App("gstr.len", SInt, r), Add(App("gstr.len", SInt, a.X), App("gstr.len", SInt, b.X))))
 			return &Val{K: KStr, T: rt, X: r}
 		case token.LSS:
 			return &Val{K: KBool, T: rt, X: c.strLt(a.X, b.X)}
@@ -1344,7 +1344,7 @@ func (c *Ctx) orderAxioms() {
 	}
 	c.addFact(orderAxiomMarker)
 	x, y, z := BoundVar("x", SStr), BoundVar("y", SStr), BoundVar("z", SStr)
-	c.addFact(Forall([]*Term{x, y, z}, Implies(And(App("str.lt", SBool, x, y), App("str.lt", SBool, y, z)), App("str.lt", SBool, x, z))))
+	c.addFact(Forall([]*Term{x, y, z}, Implies(And(App("gstr.lt", SBool, x, y), App("gstr.lt", SBool, y, z)), App("gstr.lt", SBool, x, z))))
 	u, v, w := BoundVar("u", SInt), BoundVar("v", SInt), BoundVar("w", SInt)
 	cmp := func(a, b *Term) *Term { return App("bytes.cmp", SInt, a, b) }
 	c.addFact(Forall([]*Term{u, v, w}, Implies(And(Le(cmp(u, v), Num(0)), Le(cmp(v, w), Num(0))), Le(cmp(u, w), Num(0)))))
@@ -1355,11 +1355,11 @@ var orderAxiomMarker = Eq(App("order!axioms", SBool), TTrue)
 
 func (c *Ctx) strLt(a, b *Term) *Term {
 	c.orderAxioms()
-	r := App("str.lt", SBool, a, b)
+	r := App("gstr.lt", SBool, a, b)
 	// strict total order instances: irreflexive + asymmetric + total for this pair
-	c.addFact(Not(And(r, App("str.lt", SBool, b, a))))
+	c.addFact(Not(And(r, App("gstr.lt", SBool, b, a))))
 	c.addFact(Implies(Eq(a, b), Not(r)))
-	c.addFact(Or(Eq(a, b), r, App("str.lt", SBool, b, a)))
+	c.addFact(Or(Eq(a, b), r, App("gstr.lt", SBool, b, a)))
 	return r
 }
 
@@ -1385,21 +1385,21 @@ func (fr *Frame) convert(st *State, v *Val, from, to types.Type) *Val {
 	case fk == KInt && tk == KInt:
 		return &Val{K: KInt, T: to, X: wrap(v.X, to)}
 	case fk == KInt && tk == KStr:
-		return &Val{K: KStr, T: to, X: App("str.fromrune", SStr, v.X)}
+		return &Val{K: KStr, T: to, X: App("gstr.fromrune", SStr, v.X)}
 	case fk == KStr && tk == KSlice:
 		// []byte(s): fresh backing with content bytes of s
-		ln := App("str.len", SInt, v.X)
+		ln := App("gstr.len", SInt, v.X)
 		c.addFact(Le(Num(0), ln))
 		s := fr.makeSlice(st, to, ln, ln)
 		key := heapKey("S:"+tstr(under(to).(*types.Slice).Elem()), "")
 		arr := st.heapGet(key, SArr(SInt, SArr(SInt, SInt)))
-		st.heapSet(key, Store(arr, s.X, App("str.bytes", SArr(SInt, SInt), v.X)))
+		st.heapSet(key, Store(arr, s.X, App("gstr.bytes", SArr(SInt, SInt), v.X)))
 		return s
 	case fk == KSlice && tk == KStr:
 		key := heapKey("S:"+tstr(under(from).(*types.Slice).Elem()), "")
 		arr := st.heapGet(key, SArr(SInt, SArr(SInt, SInt)))
-		r := App("str.frombytes", SStr, Select(arr, v.X), v.Off, v.Len)
-		c.addFact(Eq(App("str.len", SInt, r), v.Len))
+		r := App("gstr.frombytes", SStr, Select(arr, v.X), v.Off, v.Len)
+		c.addFact(Eq(App("gstr.len", SInt, r), v.Len))
 		return &Val{K: KStr, T: to, X: r}
 	case fk == KPtr && tk == KPtr:
 		return retype(v, to)
@@ -1551,7 +1551,7 @@ func (fr *Frame) sliceOp(st *State, x *ssa.Slice) *Val {
 		}
 		return res
 	case *types.Basic: // string
-		ln := App("str.len", SInt, base.X)
+		ln := App("gstr.len", SInt, base.X)
 		if x.High != nil {
 			hi = fr.val(st, x.High).X
 		} else {
@@ -1560,8 +1560,8 @@ func (fr *Frame) sliceOp(st *State, x *ssa.Slice) *Val {
 		if fr.Safety && c.noObligations == 0 {
 			c.oblige(fr, "safe", "slice@"+c.posKey(x.Pos()), st, And(Le(Num(0), lo), Le(lo, hi), Le(hi, ln)), "string slice bounds", x.Pos())
 		}
-		r := App("str.sub", SStr, base.X, lo, hi)
-		c.addFact(Eq(App("str.len", SInt, r), Sub(hi, lo)))
+		r := App("gstr.sub", SStr, base.X, lo, hi)
+		c.addFact(Eq(App("gstr.len", SInt, r), Sub(hi, lo)))
 		return &Val{K: KStr, T: x.Type(), X: r}
 	case *types.Pointer:
 		arr := under(bt.Elem()).(*types.Array)
@@ -1713,9 +1713,9 @@ func (fr *Frame) lookup(st *State, x *ssa.Lookup) *Val {
 	m := fr.val(st, x.X)
 	k := fr.val(st, x.Index)
 	if m.K == KStr {
-		r := App("str.at", SInt, m.X, k.X)
+		r := App("gstr.at", SInt, m.X, k.X)
 		fr.C.addFact(And(Le(Num(0), r), Le(r, Num(255))))
-		fr.checkBounds(st, k.X, App("str.len", SInt, m.X), "string index", x.Pos())
+		fr.checkBounds(st, k.X, App("gstr.len", SInt, m.X), "string index", x.Pos())
 		return &Val{K: KInt, T: x.Type(), X: r}
 	}
 	t := m.T
@@ -1723,6 +1723,17 @@ func (fr *Frame) lookup(st *State, x *ssa.Lookup) *Val {
 	root := "M:" + tstr(t)
 	kt := fr.mapKeyTerm(k)
 	et := under(t).(*types.Map).Elem()
+	if m.X.IsConst() && m.X.Val.Sign() < 0 {
+		if cm, ok := constMaps[m.X.Val.Int64()]; ok {
+			// a package-level map that is never written after initialisation
+			has := Select(cm.has, kt)
+			v := iteVal(has, &Val{K: KInt, T: et, X: Select(cm.val, kt)}, zeroVal(et))
+			if x.CommaOk {
+				return &Val{K: KTuple, T: x.Type(), Fs: []*Val{v, {K: KBool, T: types.Typ[types.Bool], X: has}}}
+			}
+			return v
+		}
+	}
 	has := Select(Select(st.heapGet(root+"#has", SArr(SInt, SArr(ks, SBool))), m.X), kt)
 	has = And(Neq(m.X, Num(0)), has)
 	v := fr.mapLoadVal(st, root, ks, m.X, kt, et, "")
